@@ -190,7 +190,8 @@ Definition exec_simple (now : clock) (cfg : config) (c : command) (file : bytes)
     let+ d := of_outcome (at_date now (a_date a)) in
     let+ t := at_time now cfg a in
     let try_y := was_automatic a in
-    let+ y := of_outcome (plus_days (dt d) (-1)) in
+    (* the day before is computed only when the fallback applies (fix F13: `stop --date 0000-01-01` used to panic) *)
+    let+ y := (if try_y then of_outcome (plus_days (dt d) (-1)) else COk (dt d)) in
     reconcile_file file
       (fun rs bs => first_creator [at_record (dt d) rs bs; if try_y then at_record y rs bs else None])
       [fun _ r =>
